@@ -37,6 +37,7 @@ type httpBackend struct {
 	upPlans map[string]*upPlan
 	counts  map[string]int
 	putRecs map[string][]upload
+	headOK  map[string]int // HEAD requests answered "the object exists" (no fault plan involved)
 	nreq    int
 
 	rawServer
@@ -52,7 +53,7 @@ var reHTTPKey = regexp.MustCompile(`/(cas\.v2|cas|ac|raw)/([0-9a-f]{64})$`)
 
 func newHTTPBackend(mode string, numUploaders, maxQueued int) (*httpBackend, error) {
 	b := &httpBackend{mode: mode, v2: mode == "zstd", objects: map[string][]byte{}, plans: map[string]*plan{},
-		upPlans: map[string]*upPlan{}, counts: map[string]int{}, putRecs: map[string][]upload{},
+		upPlans: map[string]*upPlan{}, counts: map[string]int{}, putRecs: map[string][]upload{}, headOK: map[string]int{},
 		numUploaders: numUploaders, maxQueued: maxQueued}
 	b.st = newStallTracker()
 	ln, err := net.Listen("tcp", "127.0.0.1:0")
@@ -140,7 +141,15 @@ func (b *httpBackend) forget(hash string) {
 	delete(b.putRecs, hash)
 	delete(b.plans, hash)
 	delete(b.upPlans, hash)
+	delete(b.headOK, hash)
 	b.mu.Unlock()
+}
+
+// headHits: how often the backend told a HEAD request that it holds the key.
+func (b *httpBackend) headHits(hash string) int {
+	b.mu.Lock()
+	defer b.mu.Unlock()
+	return b.headOK[hash]
 }
 
 func (b *httpBackend) holds(o *object) ([]byte, bool) {
@@ -241,6 +250,11 @@ func (b *httpBackend) serve(w http.ResponseWriter, req *http.Request) {
 		}
 		if p != nil && p.target != "contains" {
 			p = nil
+		}
+		if p == nil && ok {
+			b.mu.Lock()
+			b.headOK[hash]++
+			b.mu.Unlock()
 		}
 		b.serveRead(w, req, hash, obj, ok, p)
 	case http.MethodPut:
